@@ -507,12 +507,39 @@ theorem invLoc_dispatcherShutdown {s s' : State} (h : InvLoc s) (hs : dispatcher
     exact ⟨h.recvOids, h.split, h.noPend, h.noPanic, h.work, h.cnt, h.reqOk, h.respOk⟩
   · simp at hs
 
-theorem invLoc_ctlFini {s s' : State} (h : InvLoc s) (hs : ctlFiniStep s = some s') : InvLoc s' := by
+theorem invLoc_drainState (cfg : PipeCfg) {s : State} (h : InvLoc s) : InvLoc (drainState cfg s) := by
+  apply invLoc_applySend
+  have hperm := perm_foldl_add Resp.oid cfg.sortOutgoing s.respInbox s.outgoing
+  constructor
+  · exact h.recvOids
+  · exact h.split
+  · exact h.noPend
+  · exact h.noPanic
+  · exact h.work
+  · refine List.perm_iff_count.mpr fun k => ?_
+    have h0 := h.cnt.count_eq k
+    have h1 := (hperm.map Resp.oid).count_eq k
+    simp only [locs, pendingOids, List.map_append, List.map_nil, List.count_append, List.count_nil] at h0 h1 ⊢
+    omega
+  · exact h.reqOk
+  · intro x hx
+    have h0 := h.respOk x
+    have h1 := hperm.mem_iff (a := x)
+    simp only [allResps, List.mem_append, List.not_mem_nil, or_false] at hx h0 h1 ⊢
+    grind
+
+theorem invLoc_ctlFini {cfg : PipeCfg} {s s' : State} (h : InvLoc s) (hs : ctlFiniStep cfg s = some s') :
+    InvLoc s' := by
   unfold ctlFiniStep at hs
   split at hs
-  · simp only [Option.some.injEq] at hs
-    subst hs
-    exact ⟨h.recvOids, h.split, h.noPend, h.noPanic, h.work, h.cnt, h.reqOk, h.respOk⟩
+  · split at hs
+    · simp only [Option.some.injEq] at hs
+      subst hs
+      have h' := invLoc_drainState cfg h
+      exact ⟨h'.recvOids, h'.split, h'.noPend, h'.noPanic, h'.work, h'.cnt, h'.reqOk, h'.respOk⟩
+    · simp only [Option.some.injEq] at hs
+      subst hs
+      exact ⟨h.recvOids, h.split, h.noPend, h.noPanic, h.work, h.cnt, h.reqOk, h.respOk⟩
   · simp at hs
 
 theorem invLoc_step {cfg : PipeCfg} (hreg : cfg.registerBeforeHandoff = true) {s s' : State} {a : Action}
